@@ -422,6 +422,7 @@ EXTRA7 = {
     "C14": "The hedId zero.",
     "C15": "One atom k times counts distinct tags; handlers stay aligned with their queries.",
     "C17": "Merged runs whose latest end is not the last row's.",
+    "C18": "A task-filtered remodel run on files named the BIDS way (task-go), with edits after the backup.",
     "C19": "H6 monitor: downloads happen while the refresher holds the lock.",
 }
 for _k, _v in EXTRA3.items():
